@@ -4,8 +4,9 @@ SPEC_PART = dict(
                mask=[0, 1, 7, 8, 9, 10, 14, 15, 17, 19, 21], n_quick=40, n_thorough=200, panic_is_violation=True)],
     trusted=["tdigest: the byte-level codec model (Model/TDigestCodec.v) is written by hand from TDigestMut::serialize/deserialize; it is "
              "tied on every image the crate emits (reader accepts it, writer re-emits it byte for byte) and by the twin oracle"],
-    assumptions=["tdigest: states reached through update/merge/freeze/serialize histories (an image whose single unit centroid does "
-                 "not sit on min = max -- the inconsistent class of known finding tdigest-D17 -- does not survive the single-value form)"],
+    assumptions=["tdigest: serializable states = what serialize() can be applied to after its compress() (wfb, Proofs/TDigestCodec.v); "
+                 "nothing is assumed about one-sample digests: one whose sample, min and max differ (only reachable from a decoded "
+                 "image) used to change under the round trip -- fixed defect tdigest-C11-one-sample-form (2b18cc9)"],
     covers="tdigest: deserialize(serialize(s)) = s for every serializable state (Props/C11_tdigest.v, byte-level model, floats as bit "
            "patterns), hence byte-identical re-serialization; tie: on every image the crate emits along random histories (k 10..500, all "
            "stream shapes, merges, freeze/unfreeze) the modelled reader accepts it and the modelled writer re-emits it byte for byte, and "
